@@ -27,7 +27,7 @@ META = {
     'bounds': {
         'quick': {'skeleton depth': 2, 'node kinds': 9, 'fault kinds': '8 (callable raises Boom / Boom with a multi-line message holding caret and blank lines / KeyError / a class with its own __str__, missing key, Match reject, Check fail, unbound scope variable)', 'fault position p': 'symbolic', 'targets': 'short, long (truncated), non-ASCII',
                   'width': '50..120 via format_target_spec_trace(width=)', 'maxlen': '14..120'},
-        'thorough': {'skeleton depth': '2 (all child kinds) and 3 (chains)'},
+        'thorough': {'skeleton depth': 2, 'node kinds': '9 + leaf for the root and the first child, 5 for the second child', 'fault kinds': 'all 8 at every root'},
     },
     'stubs': ['S4 state reset', 'E1 (no short-circuit of repr) -- the real traceback module is used'],
     'outside_claim': ['TRACE_WIDTH is fixed at import (terminal width): widths are varied through format_target_spec_trace(width=) only',
@@ -596,16 +596,16 @@ def obligations(tier):
             if q and fault != (root % 8) and fault != 0 and fault != ((root + 3) % 8):
                 continue
             fx = {'root': root, 'fault': fault, 'tkind': (root + fault) % 3}
-            pre = ck.format(v='c0') + ' and ' + ck.format(v='c1') + ' and 0 <= p <= 4'
+            # thorough: every kind of first child, the quick tier's kinds for the second one (about 250 paths per obligation,
+            # each of which renders a real traceback)
+            ckq = '(' + ' or '.join('{v} == %d' % k for k in kinds_q) + ')'
+            pre = ck.format(v='c0') + ' and ' + ckq.format(v='c1') + ' and 0 <= p <= 4'
             if root in UNARY:
                 fx['c1'] = LEAF
                 pre = ck.format(v='c0') + ' and 0 <= p <= 4'
-            if not q:
-                del fx['tkind']
-                pre += ' and 0 <= tkind <= 2'
             obs.append(Ob(trace_shape, fixed=fx, pre=pre, name='trace_shape_%s_f%d' % (KINDS[root], fault), timeout=300 if q else 1200, path_timeout=60))
     for root in ([6, 2, 0] if q else range(9)):
-        for c0 in ([6, LEAF] if q else kinds):
+        for c0 in ([6, LEAF] if q else kinds_q):
             fx = {'root': root, 'c0': c0}
             pre = ck.format(v='c1') + ' and 0 <= p <= 3 and 0 <= q <= 4'
             if root in UNARY:
